@@ -517,6 +517,7 @@ func checkC15(replay string) {
 		atomic.AddInt64(&total, int64(len(cands)))
 	})
 	c15Attachment(r)
+	c15BlankConsistency(r)
 	r.Eval(int(total))
 	r.SetDistinctN(int(counts[stNo] + counts[stYes]))
 	r.Obs("reference_not_recognised", counts[stNo])
@@ -603,4 +604,81 @@ func c15Attachment(r *base.Run) {
 	}
 	r.Eval(n)
 	r.Obs("attachment_cases", n)
+}
+
+// c15BlankConsistency: whatever "whitespace" means, it means the same for every annotation keyword. For each unusual
+// white-space character and each position (between // and @, directly after the keyword) the outcome recognised /
+// not recognised must be identical for all seven keywords (each with a valid argument). The statement leaves open WHICH
+// of these characters are blanks (FREE), not that the answer may differ from keyword to keyword.
+func c15BlankConsistency(r *base.Run) {
+	chars := map[string]string{"VT": "\v", "FF": "\f", "NBSP": "\u00a0", "NEL": "\u0085", "EM-SPACE": "\u2003", "IDEOGRAPHIC-SPACE": "\u3000", "LINE-SEP": "\u2028", "ZWSP": "\u200b", "TAB": "\t", "SPACE": " "}
+	type kwCase struct{ kw, arg, site string }
+	kws := []kwCase{{"@implements", "Shape", "type"}, {"@constructor", "New", "type"}, {"@immutable", "reason", "type"}, {"@testonly", "reason", "type"}, {"@packageonly", "a/b", "type"}, {"@testonly", "reason", "func"}, {"@packageonly", "a/b", "func"}, {"@mutable", "reason", "field"}, {"@ignore", "IMM01", "ignore"}}
+	names := []string{}
+	for n := range chars {
+		names = append(names, n)
+	}
+	sort.Strings(names)
+	n := 0
+	for _, cn := range names {
+		c := chars[cn]
+		for _, pos := range []string{"before-at", "after-keyword"} {
+			outcome := map[string]bool{}
+			for _, k := range kws {
+				line := "//" + c + k.kw + " " + k.arg
+				if pos == "after-keyword" {
+					line = "// " + k.kw + c + k.arg
+				}
+				var src string
+				switch k.site {
+				case "type", "ignore":
+					src = "package x\n\n" + line + "\ntype X struct{ f int }\n"
+				case "func":
+					src = "package x\n\n" + line + "\nfunc X() {}\n"
+				case "field":
+					src = "package x\n\n// @immutable\ntype X struct {\n\t" + line + "\n\tf int\n}\n"
+				}
+				fset := token.NewFileSet()
+				f, err := parser.ParseFile(fset, "/virtual/ws.go", src, parser.ParseComments)
+				if err != nil {
+					continue // the character cannot stand in a Go comment this way
+				}
+				pass := fakePass(fset, []*ast.File{f}, "example.com/x")
+				cfg := config.New(false, []string{}, []string{})
+				rec := false
+				if k.site == "ignore" {
+					if is := ignore.ReadIgnoreAnnotations(cfg, pass); is != nil && len(is.Markers) > 0 {
+						rec = true
+					}
+				} else {
+					got := renderAnn(annotations.ReadAllAnnotations(cfg, pass), "example.com/x")
+					for key, v := range got {
+						for _, x := range v {
+							if strings.HasPrefix(x, k.kw[1:]) && (key == "X" || key == "X.f") {
+								rec = true
+							}
+						}
+					}
+				}
+				outcome[k.kw+"/"+k.site] = rec
+				n++
+			}
+			yes, no := []string{}, []string{}
+			for k, v := range outcome {
+				if v {
+					yes = append(yes, k)
+				} else {
+					no = append(no, k)
+				}
+			}
+			sort.Strings(yes)
+			sort.Strings(no)
+			r.Distinct("blank-consistency/" + cn + "/" + pos)
+			if len(yes) > 0 && len(no) > 0 {
+				r.Violate("grammar/blank-inconsistent-across-keywords/"+pos, fmt.Sprintf("the character %s %s is accepted as a blank by %v but not by %v: the annotation keywords do not share one grammar", cn, pos, yes, no), nil)
+			}
+		}
+	}
+	r.Eval(n)
+	r.Obs("blank_consistency_cases", n)
 }
